@@ -71,6 +71,22 @@ def gen_run(rng, stop=None, **over):
     return op
 
 
+def corpus_ops():
+    """Fixed class run first on every seed: fixed-step mode (L_min = L_max), the Ipopt criterion (the only one that reads
+    ŷ(x̂), through ‖ŷ‖₁ in its scaling), general constraints, and a problem whose fused evaluations scribble over the work
+    vectors — ε must be the documented formula of ŷ(x̂), not of whatever an evaluation left in `work_m`."""
+    import random
+    fixed = random.Random(20240932)
+    ops = []
+    while len(ops) < 8:
+        Lf = fixed.choice([4.0, 16.0, 64.0])
+        op = gen_run(fixed, stop=False, Lmin=f2h(Lf), Lmax=f2h(Lf), crit=8, wmscratch=1, nanat=0, oot=0,
+                     stopat=0, stopcb=0, maxiter=fixed.choice([3, 20, 60]), tol=f2h(fixed.choice([1e-3, 1e-1])))
+        if op.nat('m') >= 1:
+            ops.append(op.line())
+    return ops
+
+
 @C.tolerant
 def sweep_ops(rng, exe, n_problems):
     """Exhaustive stop injection: for fixed runs, `stop()` during every event index."""
